@@ -136,6 +136,50 @@ func VerifC17Journal() {
 	rt.Reach("c17.journal.rolledback")
 }
 
+// VerifC17JournalSegments: multi-segment journals (after a cache spill) whose
+// first segment ends before, exactly on, or after a sector boundary.
+func VerifC17JournalSegments() {
+	ctx := context.Background()
+	w := verifNewStore(true)
+	n0 := 70
+	img0 := verifImageBig("img0", n0, false, 66)
+	w.verifOpenDB(img0, 41)
+	db := w.db
+	pos0 := db.Pos()
+	first := []int{64, 63, 65, 1}[rt.Choose("first.segment.records", 4)] // 64 x 520 bytes is a whole number of sectors
+	second := 1 + rt.Choose("second.segment.records", 2)
+	nonce := rt.U32("nonce")
+	var j []byte
+	j = append(j, verifJournalHeader(int32(first), nonce, uint32(n0))...)
+	for p := 1; p <= first; p++ {
+		j = append(j, verifJournalRecord(uint32(p), img0[p-1], nonce)...)
+	}
+	for len(j)%512 != 0 {
+		j = append(j, 0)
+	}
+	nrec2 := int32(second)
+	if rt.Choose("second.nrec.zero", 2) == 1 {
+		nrec2 = 0
+	}
+	j = append(j, verifJournalHeader(nrec2, nonce, uint32(n0))...)
+	cur := make([][]byte, n0)
+	copy(cur, img0)
+	for i := 0; i < second; i++ {
+		p := first + 1 + i
+		j = append(j, verifJournalRecord(uint32(p), img0[p-1], nonce)...)
+		cur[p-1] = rt.Bytes("mod", verifP) // pages journaled in the second segment were overwritten
+	}
+	cur[0] = rt.Bytes("mod1", verifP)
+	must(os.WriteFile(db.DatabasePath(), verifJoin(cur), 0o666))
+	must(os.WriteFile(db.JournalPath(), j, 0o666))
+	rt.Check(db.Recover(ctx) == nil, "rollback succeeds")
+	rt.Check(verifGone(db.JournalPath()), "journal removed")
+	verifC01CheckImage(w, img0, "multi-segment rollback restores every journaled page")
+	chk, cerr := db.checksum(db.PageN(), nil)
+	rt.Check(cerr == nil && chk == pos0.PostApplyChecksum, "C04: checksum cache matches the restored image")
+	rt.Reach("c17.journal.segments")
+}
+
 // VerifC17JournalHostile: arbitrary journal content must not cause a panic, a
 // hang, or a write outside the database's pages.
 func VerifC17JournalHostile() {
